@@ -31,6 +31,17 @@ CHECKS = {
              "under a watchdog.",
         design="§5 C07", technique="Lean 4 proof (turn-search totality and fairness by induction) + differential "
                                    "correspondence with the real managers under a watchdog"),
+    "C12": dict(
+        text="Lean 4 theorem C12_moves: for every grid world satisfying the consistency invariant, every active "
+             "agent and every action of the action space, MoveActor/CrossMoveActor/DriftMoveActor (modelled branch "
+             "for branch over an explicit cell table) never raise and their outcome satisfies specMoveBy/specDrift: "
+             "success iff the destination is inside the grid and is the own cell or a cell whose occupants all may "
+             "overlap with the mover; on success exactly the mover relocates by the offset, on failure nothing "
+             "changes, nobody else is affected; drift turns only on a successful new direction, otherwise one "
+             "attempt along the kept orientation. Tie: per-call refinement — every real process_action call "
+             "(pre-world, call, post-world) is replayed by the driver and judged by the same predicate.",
+        design="§5 C12", technique="Lean 4 proof (cell-table lemmas, case analysis of the move body) + per-call "
+                                   "differential correspondence with the real move actors"),
 }
 
 PENDING = {
